@@ -8,7 +8,7 @@ from sim.seams import Env
 PROPERTY = "C20"
 LEVEL = "exploration"
 SCENARIOS = {"nofault": 3, "faults": 2}
-TIERS = {"quick": {"runs": 15000, "chunk": 50}, "thorough": {"runs": 500000, "chunk": 300}}
+TIERS = {"quick": {"runs": 15000, "chunk": 50}, "thorough": {"runs": 50000000, "wall_s": 600, "chunk": 300, "recheck": 16}}
 RULE = ("one run = 1-2 simulated terminals with 1-4 FMMUs and 2-10 mapping tasks that "
         "enter and leave Terminal.map_fmmu(logical, write) contexts (single, or nested "
         "write+read as SyncGroupBase.map_fmmu does) with drawn start times and durations, "
